@@ -6,6 +6,7 @@ E10_DESCRIPTION = {
     1: 'higher_outgoing_priority< c3, c1 > on service S1 and higher_outgoing_priority< S2 > on the server (priority levels <2,1,1,2>)',
     2: 'higher_outgoing_priority< c2 > on service S1 (priority levels <1,5>)',
     3: 'include_service< S2 > as first attribute of S1 (all later handles + 1), priorities as in configuration 1',
+    4: 'a service without characteristics (0x1810) in front of S1 (all handles + 1), no priorities',
 }
 LL_TUS = ['bluetoe/link_layer/delta_time.cpp', 'bluetoe/link_layer/channel_map.cpp', 'bluetoe/utility/address.cpp', 'bluetoe/link_layer/connection_details.cpp']
 ATT_E10 = {n: Unit('att_e10_%d' % n, shim='shims/att_e10.cpp', flags=['-DE10_PART=%d' % n], repo_tus=LL_TUS,
